@@ -42,7 +42,8 @@ def main():
         if a.baseline_tests:
             r = sh(f"cd {wt} && env -u PDPY11_VERIF /venv/bin/python -m pytest -q -p no:cacheprovider --timeout=900 --continue-on-collection-errors 2>&1 | tail -1")
             print("pinned tests on mutant:", r.stdout.strip())
-        r = sh(f"rsync -a --exclude .git --exclude work --exclude evidence /verif/ {vf}/")
+        extra = " ".join("--exclude " + x for x in os.environ.get("VERIF_MUT_EXCLUDE", "").split())  # work in progress of other agents
+        r = sh(f"rsync -a --exclude .git --exclude work --exclude evidence {extra} /verif/ {vf}/")
         assert r.returncode == 0, r.stdout
         worst = 0
         for pid in a.props.split(","):
